@@ -1,7 +1,9 @@
 (* C06 — binary GA family: genotypes stay binary, operators do what they are named.
    Statements only; proofs in theories/BinaryOpsProofs.v; pools regenerated in gen/GenPools.v. *)
-From TF Require Import Base RandomPrims RandomPrimsProofs BinaryOps BinaryOpsProofs Pools.
+From Coq Require Import String.
+From TF Require Import Base RandomPrims RandomPrimsProofs BinaryOps BinaryOpsProofs Pools C06Check PoolsClosed.
 From TFG Require Import GenPools.
+Close Scope string_scope.
 Open Scope Q_scope.
 
 (* every child of a crossover takes, at every locus, that locus of one of the supplied parents *)
@@ -183,6 +185,42 @@ Theorem C06_pools_named :
   table_ok mutation_pool expected_mutation = true.
 Proof. vm_compute. auto. Qed.
 Print Assumptions C06_pools_named.
+
+(* closure over the pools AS EXTRACTED FROM THE SOURCE: whatever names are looked up in the generated tables, one step
+   selection -> crossover -> flip mutation (GeneticAlgorithm / SelfCGA; PDPGA with its extra draw when pdp = true) on a
+   binary population yields a binary row of the same length, for every outcome of the draws.  The two table premises of
+   the general theorem (every crossover entry promises at least the parents its function needs, every tournament entry
+   a positive size) are discharged by computation on the generated tables. *)
+Theorem C06_pools_step_closed : forall pdp a sn cn mn pop fscale frank n ds child ds',
+  attrs_ok a -> pop_ok n pop -> pop <> [] -> valid_draws ds ->
+  length fscale = length pop -> length frank = length pop ->
+  ga_new_individ pdp selection_pool crossover_pool mutation_pool a sn cn mn pop fscale frank ds = Some (child, ds') ->
+  binary child /\ length child = n.
+Proof.
+  intros pdp a sn cn mn pop fscale frank n ds child ds' Ha.
+  apply ga_new_individ_closed; [vm_compute; reflexivity | vm_compute; reflexivity | exact Ha].
+Qed.
+Print Assumptions C06_pools_step_closed.
+
+Theorem C06_pools_step_closed_any_table : forall pdp sp cp mp a sn cn mn pop fscale frank n ds child ds',
+  sel_table_ok sp = true -> cx_table_ok cp = true -> attrs_ok a ->
+  pop_ok n pop -> pop <> [] -> valid_draws ds ->
+  length fscale = length pop -> length frank = length pop ->
+  ga_new_individ pdp sp cp mp a sn cn mn pop fscale frank ds = Some (child, ds') ->
+  binary child /\ length child = n.
+Proof. exact ga_new_individ_closed. Qed.
+Print Assumptions C06_pools_step_closed_any_table.
+
+Example C06_pools_step_nonvacuous :
+  attrs_ok {| a_tour := 2; a_parents := 2; a_rate := 0 |} /\
+  ga_new_individ false selection_pool crossover_pool mutation_pool {| a_tour := 2; a_parents := 2; a_rate := 0 |}
+    "tournament_3"%string "one_point"%string "weak"%string [[0; 0]; [1; 1]; [0; 1]]%Z [0; 1; 1 # 2] [1; 3; 2]
+    [DI 3 0; DI 3 1; DI 3 2; DI 3 2; DI 3 0; DI 3 1; DI 2 0; DU (1 # 4); DU (1 # 2); DU (1 # 2)] = Some ([1; 1]%Z, []) /\
+  ga_new_individ true selection_pool crossover_pool mutation_pool {| a_tour := 2; a_parents := 3; a_rate := 1 |}
+    "rank"%string "uniform_k"%string "custom_rate"%string [[0; 0]; [1; 1]; [0; 1]]%Z [0; 1; 1 # 2] [1; 3; 2]
+    [DU (1 # 10); DU (1 # 2); DU (9 # 10); DI 3 1; DI 3 0; DI 3 2; DU (1 # 2); DU (1 # 2)] = Some ([1; 0]%Z, []).
+Proof. unfold attrs_ok. cbn [a_tour a_parents]. split; [lia|]. vm_compute. auto. Qed.
+Print Assumptions C06_pools_step_nonvacuous.
 
 Example C06_nonvacuous :
   one_point_crossover [[0; 0; 0; 0]; [1; 1; 1; 1]]%Z [DI 4 1; DU (1 # 4)] = Some ([0; 0; 1; 1]%Z, []) /\
